@@ -26,9 +26,10 @@ def check_case(case):
     e = driver.eps_of(dtype)
     t0, tf = case["span"]
     d = 1.0 if tf > t0 else -1.0
-    T = a.t; Y = a.y
+    k0 = int(getattr(a, "_verif_skip", 0))          # rows of a first leg without events (round-trip cells): not judged
+    T = a.t[k0:]; Y = a.y[k0:]
     reported = {}
-    for st in a.events:
+    for st in a.events[int(getattr(a, "_verif_skip_events", 0)):]:
         reported.setdefault(evs.index(st.event), []).append(float(st.t))
     demanded = 0
     for j, g in enumerate(evs):
